@@ -4704,7 +4704,7 @@ process_request_body (struct MHD_Connection *connection)
       mhd_assert (MHD_SIZE_UNKNOWN == connection->rq.remaining_upload_size);
       connection->rq.current_chunk_offset += processed_size;
     }
-  } while (instant_retry);
+  } while (instant_retry && ! connection->suspended);
   /* TODO: zero out reused memory region */
   if ( (available > 0) &&
        (buffer_head != connection->read_buffer) )
